@@ -15,6 +15,7 @@ structure Cfg where
   closable : List Nat := []
   progs : List (List Nat) := []
   sig : List (Nat × Option Nat) := []   -- (handler sender, victim: none = loop thread)
+  stops : Nat := 0      -- how many uv_stop() calls from inside async callbacks may happen in one run
   forks : Nat := 0      -- how many fork + uv_loop_fork (continue in the child) may happen in one run
   eintr : Nat := 0      -- how many EINTR answers the environment may give in one run
   cap : Option Nat := none   -- eventfd counter saturates at this value (none = 2^64-2)
@@ -24,6 +25,9 @@ structure DS where
   k : List Nat    -- per sender: index of its next send
   ei : Nat := 0   -- EINTR answers left
   fk : Nat := 0   -- forks left
+  st : Nat := 0   -- uv_stop calls left
+  sf : Bool := false   -- loop->stop_flag: no effect on the async machinery (not part of the model); uv_run returns when
+                       -- uv__async_io is done, resets it, and the application runs the loop again
   dead : List Nat := []   -- senders that were inside uv_async_send at fork time: threads that do not exist in the child
 
 structure D where
@@ -47,13 +51,14 @@ def parseCfg (ws : List String) : Cfg :=
     | ["senders", v] => { c with progs := if v = "-" then [] else (v.splitOn ";").map natList }
     | ["eintr", v] => { c with eintr := nat! v }
     | ["fork", v] => { c with forks := nat! v }
+    | ["stop", v] => { c with stops := nat! v }
     | ["cap", v] => { c with cap := if v = "-" then none else some (nat! v) }
     | ["sig", v] => { c with sig := if v = "-" then [] else (v.splitOn ",").map parseSig }
     | _ => c) {}
 
 def initDS (c : Cfg) : DS :=
   { s := match c.cap with | none => init c.nh c.progs.length | some n => init c.nh c.progs.length (n - 1),
-    k := c.progs.map fun _ => 0, ei := c.eintr, fk := c.forks }
+    k := c.progs.map fun _ => 0, ei := c.eintr, fk := c.forks, st := c.stops }
 
 def spcName : SPc → String
   | .idle => "idle" | .load => "load" | .inc => "inc" | .xchg => "xchg" | .write => "write" | .dec => "dec"
@@ -85,6 +90,7 @@ def enabledToks (c : Cfg) (d : DS) : List String :=
     ++ (if lok && d.ei > 0 && enabled s (.eintr none) then ["i"] else [])
     ++ (if lok && enabled s .loop then ["l"] else [])
     ++ (if lok && d.fk > 0 && enabled s .fork then ["k"] else [])
+    ++ (if lok && d.st > 0 && !d.sf && (match s.lpc with | .inCb _ => true | _ => false) then ["x"] else [])
     ++ ((c.closable.filter fun h => lok && enabled s (.close h)).map fun h => s!"c{h}")
     ++ (if lok && enabled s .closeCbs && (List.range s.nh).any (fun h => (s.hs h).unlinked && !(s.hs h).freed) then ["f"] else [])
 
@@ -99,7 +105,7 @@ def stateStr (c : Cfg) (d : DS) : String :=
     let x := s.snd[t]?.getD ({} : Sender)
     s!"t{t}:{spcName x.pc},h{x.h},k{d.k.getD t 0},q{x.seq}"
   s!"efd={s.efd} lpc={lpcName s.lpc} q={listStr s.queue} hl={listStr s.handles} | "
-    ++ " ".intercalate hs ++ " | " ++ " ".intercalate ts ++ s!" | ei={d.ei} fk={d.fk} en=" ++ ",".intercalate (enabledToks c d)
+    ++ " ".intercalate hs ++ " | " ++ " ".intercalate ts ++ s!" | ei={d.ei} fk={d.fk} st={d.st} sf={if d.sf then 1 else 0} en=" ++ ",".intercalate (enabledToks c d)
 
 /-- apply one token; returns the effect text -/
 def applyTok (c : Cfg) (d : DS) (tok : String) : Option (DS × String) :=
@@ -114,7 +120,9 @@ def applyTok (c : Cfg) (d : DS) (tok : String) : Option (DS × String) :=
       | .inCb h => s!"cbret h{h}"
       | .closeStore h _ => s!"store h{h}"
       | .closeSpin h _ => s!"spin h{h} unlink"
-    (step? s .loop).map fun s' => ({ d with s := s' }, eff)
+    (step? s .loop).map fun s' => ({ d with s := s', sf := if s'.lpc = .idle then false else d.sf }, eff)
+  else if tok = "x" then
+    some ({ d with st := d.st - 1, sf := true }, "stop")
   else if tok = "k" then
     (step? s .fork).map fun s' => ({ d with s := s', fk := d.fk - 1, dead := d.dead ++ busyThreads d }, "fork")
   else if tok = "i" then
